@@ -66,7 +66,7 @@ func vhC07_cb_L3() { vC07Cb(3) }
 func vC07Core(L int) {
 	hooks := vInstallHooks()
 	in := vLegalScript("s", L)
-	where := vChoice("where", 4) // 0 subscribe fn, 1 onNext, 2 onError, 3 onComplete
+	where := vChoice("where", 5) // 0 subscribe fn, 1 onNext, 2 onError, 3 onComplete, 4 the returned teardown
 	at := vChoice("at", L+1)
 	kind := vChoice("fkind", 2)
 	boom := func() {
@@ -95,6 +95,12 @@ func vC07Core(L int) {
 		if where == 0 && at == len(in) {
 			fired++
 			boom()
+		}
+		if where == 4 {
+			return func() {
+				fired++
+				boom()
+			}
 		}
 		return nil
 	}
@@ -134,9 +140,20 @@ func vC07Core(L int) {
 				}
 			}
 			vAssert(errs == 1, "core: a panic in the observer's onNext did not surface exactly once as an Error notification")
+		case 4:
+			// a panicking teardown (run at once when the source terminated synchronously, or by the
+			// Unsubscribe below): whatever happens to the panic, no lock may be left held
 		default:
 			vAssert(hooks.unhandled > 0, "core: a failure nobody can receive did not reach the unhandled-error hook")
 		}
+	}
+	if where == 4 && sub != nil {
+		func() {
+			defer func() { recover() }() // C03: the caller of Unsubscribe may get the teardown's panic
+			sub.Unsubscribe()
+		}()
+		vAssert(sub.IsClosed(), "core: the subscription is unusable after a panicking teardown")
+		sub.Wait()
 	}
 	if sub != nil {
 		vAssert(sub.IsClosed() || rec.terminals() == 0, "core: subscription left open after a terminal")
